@@ -20,7 +20,8 @@ MANIFEST = {
             'reference relation taken from the property statement (exhaustive over the finite tables, hence all inputs, given the yacc '
             'precedence theorem T1), no listed operator is unranked, tables are consistent with an independently built LR(0) automaton, '
             'and the `( expr )` action is proved by symbolic execution to set parentheses on its operand and nothing else.',
-    'note': 'Assumed: T1 (yacc precedence theorem, cited not mechanised; bounded cross-check over all operator strings with <=2 (quick) / <=3 '
+    'note': 'Operator rules are recognised by shape (expr OP expr, OP expr, BETWEEN, two-token predicates such as NOT IN); expr productions of any other shape '
+            'generate no obligation and are listed in the evidence (census.<dialect>.unclassified_expr_rules). Assumed: T1 (yacc precedence theorem, cited not mechanised; bounded cross-check over all operator strings with <=2 (quick) / <=3 '
             '(thorough) operators in 2/6 contexts), the SLY driver consults exactly table[state][lookahead] (C05.drv), CPython, our LR(0) '
             'builder. Not decided: evaluation against a reference SQL engine (follows from grouping only under the assumption that '
             'operator semantics are standard).',
